@@ -112,13 +112,22 @@ func (r *c18Run) runMultiImpl(cs *c18Case, text string, n int) ([]*flavors.Insta
 	default:
 		return nil, lib.Outcome{Class: "harness-bug", Msg: "entry " + cs.Entry}
 	}
+	// A call that never returns (a full channel, a reader that waits) is a verdict only after a
+	// limit no load on the machine can reach (load 100+ is normal here); the same call is waited
+	// for, not repeated: a second evaluation next to a slow first one would share the scope.
+	var o lib.Outcome
+	returned := false
 	done := make(chan lib.Outcome, 1)
 	go func() { done <- r.impl.eval(src, binds) }()
-	var o lib.Outcome
 	select {
 	case o = <-done:
-	case <-time.After(20 * time.Second):
-		return nil, lib.Outcome{Class: "blocked", Msg: "the call did not return within 20 s"}
+		returned = true
+	case <-time.After(r.blockLimit):
+		// the verdict of this run is settled; later calls that do not return need not be waited for as long
+		r.blockLimit = 30 * time.Second
+	}
+	if !returned {
+		return nil, lib.Outcome{Class: "blocked", Msg: "the call did not return (limit 10 min for the first such call of a run, 30 s after it)"}
 	}
 	if !o.Ok {
 		return nil, o
